@@ -18,7 +18,7 @@ FUNCTIONS = ["ak.cli_tools.ArgParser.__init__", "ak.cli_tools.ArgParser._init_mu
              "ak.cli_tools.AkArgumentParser.register_dependent", "ak.cli_tools.AkArgumentParser.add_argument"]
 BOUNDS = {
     "quick": {"commands": "N = 3 and N = 4 with <= 1 internal set: every parent declaration over earlier commands (2^(N(N-1)/2) graphs), every choice of internal '!' sets with at least one real command",
-              "options": "one option per command parser + one on the ArgParser + the standard -v/--color/--no-color", "argv": "[cmd, --opt] for every pair, [--opt] (default command), option values equal to command / option-set names, standard options"},
+              "options": "two options (sharing one destination) per command parser + one on the ArgParser + the standard -v/--color/--no-color", "argv": "[cmd, --opt] for every pair, [--opt] (default command), option values equal to command / option-set names, standard options"},
     "thorough": {"commands": "N <= 5 (1024 graphs x internal-set choices, sharded by the parents of the last command)", "options": "as quick", "argv": "as quick"},
 }
 OUTSIDE = ["option kinds other than store_true flags", "abbreviated long options (argparse prefix matching)", "N > 5 commands"]
@@ -67,6 +67,8 @@ def _run(n: int, edges: List[List[bool]], internal: List[bool], spaces: bool, sw
             raise Violation(f"construct :: ArgParser({descr}) raises {type(e).__name__}: {e}")
         for k in range(n):
             p.get_cmd_parser(names[k]).add_argument(f"--o{k}", action="store_true")
+            # a second option of the same parser stores into the same attribute (as --with-x / --without-x pairs do)
+            p.get_cmd_parser(names[k]).add_argument(f"--alt{k}", action="store_const", const="alt", dest=f"o{k}")
         p.add_argument("--glob", action="store_true")
         real = [k for k in range(n) if not internal[k]]
         default = real[0]
@@ -97,6 +99,14 @@ def _run(n: int, edges: List[List[bool]], internal: List[bool], spaces: bool, sw
                         raise Violation(f"accepts-foreign :: {descr}: command c{j} accepts --o{i} though c{i} is not an ancestor")
                     if r[1] != 2:
                         raise Violation(f"exit-code :: {descr}: rejection exits with {r[1]}")
+            for i in range(n):
+                r = parse([names[j], f"--alt{i}"])
+                should = (i == j) or (i in anc[j])
+                if should != (not isinstance(r, tuple)):
+                    raise Violation(f"{'rejects-inherited' if should else 'accepts-foreign'} :: {descr}: command c{j} {'rejects' if should else 'accepts'} --alt{i} "
+                                    f"(second option of c{i}'s parser, same destination as --o{i})")
+                if should and (getattr(r, f"o{i}", None) != "alt" or r.command != names[j]):
+                    raise Violation(f"namespace :: {descr}: [c{j} --alt{i}] parsed to {r}")
             r = parse([names[j], "--glob", "-v", "--color=always"])
             if isinstance(r, tuple) or not r.glob or r.verbose != 1 or r.color != "always":
                 raise Violation(f"std-options :: {descr}: [c{j} --glob -v --color=always] gives {r}")
